@@ -17,6 +17,8 @@ EXPLANATION = (
     "exhaustive for the ladder); the chosen column type must be able to store both limits by the frozen capacity table, "
     "its printed size (if any) must be a digit count, and a type printed without size must be in _INT_TYPES. (O19.7) "
     "Decimal columns carry the rule's (scale, precision), text columns the upper length limit."
+    " Added in rounds 6 and 7: The statement table also uses fields with native empty values (0, 1.5); ANSI int is"
+    " decided as 32 bit (the module's own MAX_INTEGER), ANSI bigint as 64 bit."
 )
 ASSUMPTIONS = [
     "capacity table: tinyint 0..255 (unsigned, Transact-SQL), smallint +-2^15, int/integer +-2^31, bigint +-2^63, "
